@@ -99,6 +99,12 @@ func (v *Voter) Verify(proposal *hotstuff.ProposeMsg) (err error) {
 	if blockView <= v.lastVotedView {
 		return fmt.Errorf("block view %d too old, last voted view was %d", blockView, v.lastVotedView)
 	}
+	// the block must directly extend the block certified by its QC, in a higher view: the commit
+	// rules follow QC links while blocks are committed along parent links.
+	if qc := proposal.Block.QuorumCert(); proposal.Block.Parent() != qc.BlockHash() || blockView <= qc.View() {
+		return fmt.Errorf("block (view %d, parent %s) does not extend the block certified by its QC (view %d, block %s)",
+			blockView, proposal.Block.Parent().SmallString(), qc.View(), qc.BlockHash().SmallString())
+	}
 	// vote rule must be valid
 	if !v.ruler.VoteRule(blockView, *proposal) {
 		return fmt.Errorf("vote rule not satisfied")
